@@ -241,6 +241,17 @@ func runFaultJob(c *Ctl, job *Job, idx int, res *RunResult) {
 		prof.WAdvance = 1
 		prof.Checks["C08"] = true
 		res.Sample = map[string]interface{}{"world": w.Summary(), "config": w.ConfigMap()}
+	case "c19":
+		world, variant := idx/3, idx%3
+		reseed(0x19000001, world)
+		w = GenOutputWorld(c.Ch, thorough)
+		reseed(0x19000002, idx)
+		w.Format = []string{"raw", "prefixed", "cockpit"}[variant]
+		prof.WAdvance = 1
+		prof.Checks["C19"] = true
+		res.WorldIdx = world
+		res.Sample = map[string]interface{}{"world": w.Summary(), "format": w.Format}
+		c.Count("c19_format_" + w.Format)
 	case "c14":
 		w = GenContextWorld(c.Ch, thorough)
 		prof.UseRunEnter = true
@@ -268,6 +279,10 @@ func runFaultJob(c *Ctl, job *Job, idx int, res *RunResult) {
 	}
 	if prof.Checks["C08"] {
 		e.checkC08()
+	}
+	if prof.Checks["C19"] {
+		e.checkC19()
+		res.Outcome = e.resultSignature()
 	}
 	res.NonTrivial = true
 	e.c.Counters[fmt.Sprintf("max_parallel_execs_%d", e.maxExecPar)]++
